@@ -24,6 +24,8 @@ def gen_task(rnd, family):
         spec["res"] = "unpicklable"
     elif family in ("contain", "mixed") and r < 0.50:
         spec["body"], spec["exc"] = "raise", "unpicklable"
+    elif family in ("contain", "mixed") and r < 0.58:
+        spec["body"], spec["exc"] = "raise", "falsy"     # an exception object that is falsy (has a length, 0)
     if family in ("contain", "mixed") and rnd.random() < 0.15:
         spec["cb"] = rnd.choice(["ok", "raise"])
     if family in ("crash", "mixed") and rnd.random() < 0.12:
@@ -222,6 +224,16 @@ def gen_reusable(seed, family="reuse"):
             u0.append(["reusable", {"max_workers": rnd.choice([1, 2, 3]), "timeout": None}])
         return {"kind": "reusable", "max_workers": 2, "timeout": None, "cpu_count": 2, "tasks": tasks, "family": family,
                 "users": [u0], "sched": {"p_timeout": 0.0, "p_crash": 0.0, "max_crashes": 0}}
+    if family == "reuseput":
+        # a shrink by more workers than the call queue has slots (cpu_count 1: three): the resize blocks in put(None)
+        # with the management lock held until workers make room - while one of them may die
+        mw = rnd.choice([5, 6, 7])
+        nt = rnd.randint(1, 3)
+        tasks = [{"body": "ok"} for _ in range(nt)]
+        u0 = [["reusable", {"max_workers": mw, "timeout": None}]] + [["submit", i] for i in range(nt)]
+        u0.append(["reusable", {"max_workers": rnd.choice([1, 1, 2]), "timeout": None}])
+        return {"kind": "reusable", "max_workers": 2, "timeout": None, "cpu_count": 1, "tasks": tasks, "family": family,
+                "users": [u0], "sched": {"p_timeout": 0.0, "p_crash": rnd.choice([0.0, 0.02, 0.05]), "max_crashes": 1}}
     if family == "reusecancel":
         # more queued tasks than the call queue holds (cpu_count 1: three slots), the last ones cancelled while still
         # PENDING (they stay in the table until the manager reaches them), then a resize that waits for the jobs while
